@@ -79,6 +79,9 @@ fn run(args: &[String]) {
     let label = arg_val(args, "--label").unwrap_or_else(|| "native".to_string());
 
     monitor::install_panic_hook();
+    if let Some(r) = &report {
+        *monitor::PARTIAL_PATH.lock().unwrap() = Some(format!("{}.partial", r));
+    }
     let t0 = Instant::now();
 
     let shards: Vec<usize> = match only {
